@@ -550,3 +550,125 @@ pub fn logical_defined(v: &RValue, s: &RSchema, env: &Env) -> Result<(), String>
 		_ => Ok(()),
 	}
 }
+
+// ---------------------------------------------------------------------------------------------
+// Logical types that must be IGNORED. The specification: "Language implementations must ignore
+// unknown logical types when reading, and should use the underlying Avro type. If a logical type is
+// invalid, for example a decimal with scale greater than its precision, then implementations
+// should ignore the logical type and use the underlying Avro type."
+// `vmodel::schema::resolve_text` keeps every annotation it reads; the rule of applicability below is
+// added on top of it, from the specification's per-type definitions.
+
+/// Largest precision a two's-complement fixed of `size` bytes can hold: floor(log10(2^(8·size-1) - 1)).
+pub fn max_decimal_precision_of_fixed(size: usize) -> usize {
+	if size == 0 {
+		return 0;
+	}
+	(((8 * size - 1) as f64) * std::f64::consts::LOG10_2).floor() as usize
+}
+
+/// Is the annotation valid for this underlying type, per the specification's definition of each
+/// logical type (Avro 1.11; `uuid` only on string)?
+pub fn logical_applicable(l: &Logical, base: &RSchema) -> bool {
+	match (l, base) {
+		(Logical::Decimal { precision, scale }, RSchema::Bytes) => *precision >= 1 && (*scale as usize) <= *precision,
+		(Logical::Decimal { precision, scale }, RSchema::Fixed { size, .. }) => *precision >= 1 && (*scale as usize) <= *precision && *precision <= max_decimal_precision_of_fixed(*size),
+		(Logical::BigDecimal, RSchema::Bytes) => true,
+		(Logical::Uuid, RSchema::String) => true,
+		(Logical::Date | Logical::TimeMillis, RSchema::Int) => true,
+		(Logical::TimeMicros | Logical::TimestampMillis | Logical::TimestampMicros, RSchema::Long) => true,
+		(Logical::Duration, RSchema::Fixed { size, .. }) => *size == 12,
+		_ => false,
+	}
+}
+
+/// The schema as the specification reads it: annotations that are unknown or not valid for their
+/// underlying type are dropped, the underlying type remains.
+pub fn spec_effective(s: &RSchema) -> RSchema {
+	use RSchema as S;
+	match s {
+		S::Logical(l, b) => {
+			let b = spec_effective(b);
+			if logical_applicable(l, &b) {
+				S::Logical(l.clone(), Box::new(b))
+			} else {
+				b
+			}
+		}
+		S::Array(i) => S::Array(Box::new(spec_effective(i))),
+		S::Map(i) => S::Map(Box::new(spec_effective(i))),
+		S::Union(v) => S::Union(v.iter().map(spec_effective).collect()),
+		S::Record { name, fields } => S::Record { name: name.clone(), fields: fields.iter().map(|(n, f)| (n.clone(), spec_effective(f))).collect() },
+		other => other.clone(),
+	}
+}
+
+/// Schema text -> the specification's reading of it.
+pub fn resolve_effective(text: &str) -> Result<RSchema, String> {
+	let cfg = vmodel::schema::ResolveCfg { allow_forward: false, allow_leading_dot: false };
+	Ok(spec_effective(&vmodel::schema::resolve_text(text, &cfg)?))
+}
+
+/// Schemas (as text: the shared AST alphabet cannot spell them) whose logical type the
+/// specification says to ignore: (label "logical on underlying", schema text). Named types are
+/// numbered so that several of them can live in one document.
+/// Pairs for which no verdict is given (DESIGN.md §7): a decimal annotation on bytes / fixed whose
+/// *parameters* are invalid (precision < 1, scale > precision, precision beyond what the fixed can
+/// hold). The specification says implementations "should" ignore such an annotation; the crate
+/// applies it (observation O5). What the crate does is still recorded in the evidence table.
+pub fn ignored_logical_no_verdict(label: &str) -> bool {
+	label.starts_with("decimal(") && (label.contains(" on bytes") || label.contains(" on fixed("))
+}
+
+pub fn ignored_logical_texts() -> Vec<(String, String)> {
+	let mut out: Vec<(String, String)> = Vec::new();
+	let mut k = 0;
+	let mut fixed = |size: usize, attrs: &str| {
+		k += 1;
+		format!("{{\"type\":\"fixed\",\"name\":\"IgnFx{k}\",\"size\":{size},{attrs}}}")
+	};
+	for size in [0usize, 4, 11, 13, 16] {
+		out.push((format!("duration on fixed({size})"), fixed(size, "\"logicalType\":\"duration\"")));
+	}
+	out.push(("duration on bytes".into(), "{\"type\":\"bytes\",\"logicalType\":\"duration\"}".into()));
+	// decimals that are invalid for their underlying type
+	out.push(("decimal(precision 0) on bytes".into(), "{\"type\":\"bytes\",\"logicalType\":\"decimal\",\"precision\":0}".into()));
+	out.push(("decimal(precision 2, scale 5) on bytes".into(), "{\"type\":\"bytes\",\"logicalType\":\"decimal\",\"precision\":2,\"scale\":5}".into()));
+	out.push(("decimal(precision 0) on fixed(2)".into(), fixed(2, "\"logicalType\":\"decimal\",\"precision\":0")));
+	out.push(("decimal(precision 2, scale 3) on fixed(2)".into(), fixed(2, "\"logicalType\":\"decimal\",\"precision\":2,\"scale\":3")));
+	out.push(("decimal(precision 4) on fixed(1)".into(), fixed(1, "\"logicalType\":\"decimal\",\"precision\":4")));
+	out.push(("decimal(precision 5, scale 2) on fixed(2)".into(), fixed(2, "\"logicalType\":\"decimal\",\"precision\":5,\"scale\":2")));
+	out.push(("decimal(precision 4) on string".into(), "{\"type\":\"string\",\"logicalType\":\"decimal\",\"precision\":4}".into()));
+	out.push(("decimal(precision 4) on long".into(), "{\"type\":\"long\",\"logicalType\":\"decimal\",\"precision\":4}".into()));
+	// logical types on the wrong underlying type
+	for (l, under) in [
+		("uuid", "bytes"),
+		("uuid", "int"),
+		("date", "long"),
+		("date", "string"),
+		("time-millis", "long"),
+		("time-micros", "int"),
+		("timestamp-millis", "int"),
+		("timestamp-micros", "int"),
+		("timestamp-micros", "bytes"),
+		("big-decimal", "string"),
+		("big-decimal", "int"),
+	] {
+		out.push((format!("{l} on {under}"), format!("{{\"type\":\"{under}\",\"logicalType\":\"{l}\"}}")));
+	}
+	out.push(("big-decimal on fixed(3)".into(), fixed(3, "\"logicalType\":\"big-decimal\"")));
+	out.push(("uuid on fixed(3)".into(), fixed(3, "\"logicalType\":\"uuid\"")));
+	out.push(("date on fixed(4)".into(), fixed(4, "\"logicalType\":\"date\"")));
+	// an unknown logical type on every kind of underlying type
+	for under in ["null", "boolean", "int", "long", "float", "double", "bytes", "string"] {
+		out.push((format!("unknown on {under}"), format!("{{\"type\":\"{under}\",\"logicalType\":\"verif-unknown\"}}")));
+	}
+	out.push(("unknown on fixed(3)".into(), fixed(3, "\"logicalType\":\"verif-unknown\"")));
+	k += 1;
+	out.push(("unknown on enum".into(), format!("{{\"type\":\"enum\",\"name\":\"IgnEn{k}\",\"symbols\":[\"a\",\"b\"],\"logicalType\":\"verif-unknown\"}}")));
+	out.push(("unknown on array".into(), "{\"type\":\"array\",\"items\":\"int\",\"logicalType\":\"verif-unknown\"}".into()));
+	out.push(("unknown on map".into(), "{\"type\":\"map\",\"values\":\"int\",\"logicalType\":\"verif-unknown\"}".into()));
+	k += 1;
+	out.push(("unknown on record".into(), format!("{{\"type\":\"record\",\"name\":\"IgnRec{k}\",\"fields\":[{{\"name\":\"a\",\"type\":\"int\"}}],\"logicalType\":\"verif-unknown\"}}")));
+	out
+}
